@@ -1,6 +1,7 @@
 package chk
 
 import (
+	"fmt"
 	"go/token"
 	"go/types"
 
@@ -969,4 +970,647 @@ func joinStrings(s []string, sep string) string {
 		out += x
 	}
 	return out
+}
+
+// ---- FILTER.afterindex (C07, C08) --------------------------------------------------------------------------------------------
+
+// ruleFilterAfterIndex: in the indexed form of ValuesForPath the sub-key conditions are applied to what the index selected, never
+// before it: the indexed walker resolves its segments without sub-keys (every call it makes of a function that takes sub-key
+// specifications passes none). Filtering first makes `book[1]` the second of the *matching* books.
+func ruleFilterAfterIndex(p *Prog, r *Report, fns []*ssa.Function) {
+	const rule = "FILTER.afterindex"
+	n := 0
+	for _, fn := range fns {
+		if len(fn.Blocks) == 0 {
+			continue
+		}
+		hasKeys := false
+		for _, prm := range fn.Params {
+			if sl, ok := prm.Type().Underlying().(*types.Slice); ok {
+				if pt, ok := sl.Elem().Underlying().(*types.Pointer); ok {
+					if _, ok := pt.Elem().Underlying().(*types.Struct); ok {
+						hasKeys = true
+					}
+				}
+			}
+		}
+		if !hasKeys {
+			continue
+		}
+		ord := newOrdinals()
+		eachInstr(fn, func(b *ssa.BasicBlock, in ssa.Instruction) {
+			c, ok := in.(*ssa.Call)
+			if !ok {
+				return
+			}
+			g := staticCallee(&c.Call)
+			if g == nil || !p.InModule(g) || g == fn || !g.Signature.Variadic() {
+				return
+			}
+			vt := g.Signature.Params().At(g.Signature.Params().Len() - 1).Type()
+			if !isStringSlice(vt) {
+				return
+			}
+			n++
+			cons := ord.key(p.Name(fn), "segments resolved without sub-keys")
+			last := c.Call.Args[len(c.Call.Args)-1]
+			if isNilConst(last) {
+				r.OK(rule, p.Name(fn), cons, p.Pos(c.Pos()), p.Name(g)+" is called without sub-key specifications: the filter is applied by the caller to what the index selected")
+			} else {
+				r.Bad(rule, p.Name(fn), cons, p.Pos(c.Pos()), "the indexed walker hands sub-key specifications to "+p.Name(g)+": the list is filtered before the index is applied, so the index counts matching members only and the result is not a subset of the unfiltered result")
+			}
+		})
+	}
+	_ = n
+	r.Floor(rule, 1)
+}
+
+// ---- JSON.listwrap (C06) -------------------------------------------------------------------------------------------------------
+
+// ruleJsonListWrap: NewMapJson puts the `{"object": … }` wrapper around its input only where the input's first byte is '['
+// (the documented special case for a top-level list); every other input is handed to encoding/json as it is, so NewMapJson
+// accepts exactly what encoding/json decodes as an object.
+func ruleJsonListWrap(p *Prog, r *Report) {
+	const rule = "JSON.listwrap"
+	fn := p.Fn("mxj.NewMapJson")
+	if fn == nil {
+		r.Anchor(rule, "mxj.NewMapJson")
+		return
+	}
+	isWrapConst := func(v ssa.Value) bool {
+		if cv, ok := v.(*ssa.Convert); ok {
+			v = cv.X
+		}
+		s, ok := constString(v)
+		return ok && len(s) > 2 && s[0] == '{' && s[len(s)-1] == ':'
+	}
+	listGuard := func(blk *ssa.BasicBlock) (bool, string) {
+		for _, gd := range dominatingGuards(blk) {
+			ng := normGuard(gd)
+			bo, ok := ng.Cond.(*ssa.BinOp)
+			if !ok {
+				continue
+			}
+			k, isK := constInt(bo.Y)
+			u, isU := bo.X.(*ssa.UnOp)
+			if !isK || !isU {
+				continue
+			}
+			ia, ok := u.X.(*ssa.IndexAddr)
+			if !ok || ia.X != ssa.Value(fn.Params[0]) {
+				continue
+			}
+			if i0, ok := constInt(ia.Index); !ok || i0 != 0 {
+				continue
+			}
+			if k == '[' && ((bo.Op == token.EQL && ng.Pol) || (bo.Op == token.NEQ && !ng.Pol)) {
+				return true, ""
+			}
+			return false, "the wrapper is applied under a different test of the first byte (" + p.canonFor(fn).of(bo) + ")"
+		}
+		return false, "the wrapper is not guarded by a test that the first byte is '['"
+	}
+	n := 0
+	check := func(at ssa.Instruction, blk *ssa.BasicBlock) {
+		n++
+		if ok, why := listGuard(blk); ok {
+			r.OK(rule, p.Name(fn), "object wrapper only for a top-level list", p.Pos(at.Pos()), "dominated by jsonVal[0] == '['")
+		} else {
+			r.Bad(rule, p.Name(fn), "object wrapper only for a top-level list", p.Pos(at.Pos()), why+": documents that encoding/json would reject as an object (scalars) or decode as they are (an object after white space) are wrapped and accepted")
+		}
+	}
+	eachInstr(fn, func(b *ssa.BasicBlock, in ssa.Instruction) {
+		for _, op := range in.Operands(nil) {
+			if op != nil && *op != nil && isWrapConst(*op) {
+				check(in, b)
+				return
+			}
+		}
+		// the wrapper assembled by an unexported helper
+		if c, ok := in.(*ssa.Call); ok {
+			if h := staticCallee(&c.Call); h != nil && p.InModule(h) && !p.Exported(h) && len(h.Blocks) > 0 {
+				found := false
+				eachInstr(h, func(b2 *ssa.BasicBlock, i2 ssa.Instruction) {
+					for _, op := range i2.Operands(nil) {
+						if op != nil && *op != nil && isWrapConst(*op) {
+							found = true
+						}
+					}
+				})
+				if found {
+					check(c, b)
+				}
+			}
+		}
+	})
+	if n == 0 {
+		r.Unknown(rule, p.Name(fn), "object wrapper only for a top-level list", p.Pos(fn.Pos()), "the `{\"object\":` wrapper was not found")
+	}
+}
+
+// ---- JSON.identity (C06) -------------------------------------------------------------------------------------------------------
+
+// ruleJsonIdentity: what Json / JsonIndent hand to encoding/json is the receiver itself (through conversions and parameters only),
+// not a value rebuilt from it: a rebuilt copy is where an empty list turns into null or a number changes its type.
+func ruleJsonIdentity(p *Prog, r *Report) {
+	const rule = "JSON.identity"
+	for _, n := range []string{"mxj.Map.Json", "mxj.Map.JsonIndent"} {
+		fn := p.Fn(n)
+		if fn == nil {
+			r.Anchor(rule, n)
+			continue
+		}
+		found, bad := 0, ""
+		var scan func(f *ssa.Function, recv ssa.Value, depth int)
+		scan = func(f *ssa.Function, recv ssa.Value, depth int) {
+			eachInstr(f, func(b *ssa.BasicBlock, in ssa.Instruction) {
+				c, ok := in.(ssa.CallInstruction)
+				if !ok {
+					return
+				}
+				cm := c.Common()
+				if isCallTo(cm, "(*encoding/json.Encoder).Encode", "encoding/json.Marshal", "encoding/json.MarshalIndent") {
+					arg := cm.Args[0]
+					if isCallTo(cm, "(*encoding/json.Encoder).Encode") {
+						arg = cm.Args[1]
+					}
+					found++
+					if !derivesFrom(arg, recv) {
+						bad = p.Pos(in.Pos())
+					}
+					return
+				}
+				if g := staticCallee(cm); g != nil && p.InModule(g) && !p.Exported(g) && len(g.Blocks) > 0 && depth < 3 {
+					for i, a := range cm.Args {
+						if i < len(g.Params) && derivesFrom(a, recv) {
+							scan(g, g.Params[i], depth+1)
+						}
+					}
+				}
+			})
+		}
+		scan(fn, fn.Params[0], 0)
+		switch {
+		case found == 0:
+			r.Unknown(rule, n, "the Map itself is encoded", p.Pos(fn.Pos()), "no encoding/json encoding call on the receiver found")
+		case bad != "":
+			r.Bad(rule, n, "the Map itself is encoded", bad, "the value handed to encoding/json is computed from the Map instead of being the Map: what the rebuilt copy changes (an empty list becoming nil, a key or number converted) changes the document")
+		default:
+			r.OK(rule, n, "the Map itself is encoded", p.Pos(fn.Pos()), "the encoder's argument is the receiver through conversions and parameters only")
+		}
+	}
+}
+
+// ---- WALK.noearlyexit (C07, C08, C09, C10, C20) -------------------------------------------------------------------------------
+
+// ruleWalkNoEarlyExit: a walker that collects into a result it was handed (no result values of its own) never returns from inside
+// a loop over the members of a list or the entries of a map: a member that does not qualify is skipped, it does not end the scan.
+// `if !ok { return }` in the place of `continue` drops every later member.
+func ruleWalkNoEarlyExit(p *Prog, r *Report, names []string) {
+	const rule = "WALK.noearlyexit"
+	for _, n := range names {
+		fn := p.Fn(n)
+		if fn == nil {
+			r.Anchor(rule, n)
+			continue
+		}
+		if fn.Signature.Results().Len() != 0 {
+			r.Unknown(rule, n, "walker shape", p.Pos(fn.Pos()), "the walker now has result values: an early return may be meaningful")
+			continue
+		}
+		// loop headers of range loops over slices and maps
+		hdrs := map[*ssa.BasicBlock]bool{}
+		eachInstr(fn, func(b *ssa.BasicBlock, in ssa.Instruction) {
+			switch x := in.(type) {
+			case *ssa.Next:
+				hdrs[b] = true
+			case *ssa.IndexAddr:
+				if isRangeIndex(x.Index) {
+					hdrs[x.Index.(*ssa.BinOp).X.(*ssa.Phi).Block()] = true
+				}
+			}
+		})
+		bad := ""
+		nLoops := 0
+		for h := range hdrs {
+			nLoops++
+			body := naturalLoop(h)
+			for b := range body {
+				if b == h {
+					continue
+				}
+				for _, sc := range b.Succs {
+					if body[sc] {
+						continue
+					}
+					// leaving the loop from inside its body: allowed only if the loop's normal exit is where it goes (break) and
+					// … there is no such idiom in a collecting walker: any exit that reaches a return without passing the header is early
+					if reachesReturnOnly(sc) {
+						bad = p.Pos(firstPos(b))
+					}
+				}
+			}
+		}
+		if nLoops == 0 {
+			r.Unknown(rule, n, "member loops", p.Pos(fn.Pos()), "no loop over list members or map entries found")
+			continue
+		}
+		if bad == "" {
+			r.OK(rule, n, "no return from inside a member loop", p.Pos(fn.Pos()), fmt.Sprintf("%d member loops are left only through their header", nLoops))
+		} else {
+			r.Bad(rule, n, "no return from inside a member loop", bad, "the walker returns from inside a loop over members (from the block at "+bad+"): the members after the one that triggered the return are never visited")
+		}
+	}
+}
+
+// reachesReturnOnly: every path from b ends in a return without entering a loop header again (b is outside the loop it left).
+func reachesReturnOnly(b *ssa.BasicBlock) bool {
+	seen := map[*ssa.BasicBlock]bool{}
+	var rec func(x *ssa.BasicBlock) bool
+	rec = func(x *ssa.BasicBlock) bool {
+		if seen[x] {
+			return true
+		}
+		seen[x] = true
+		if len(x.Succs) == 0 {
+			_, isRet := x.Instrs[len(x.Instrs)-1].(*ssa.Return)
+			return isRet
+		}
+		// a call of the walker itself, a loop, or an append after the exit means work goes on: not an early return
+		for _, in := range x.Instrs {
+			switch in.(type) {
+			case *ssa.Call, *ssa.Store, *ssa.MapUpdate:
+				return false
+			}
+		}
+		for _, sc := range x.Succs {
+			if !rec(sc) {
+				return false
+			}
+		}
+		return true
+	}
+	return rec(b)
+}
+
+// ---- WALK.current (C07, C09) ---------------------------------------------------------------------------------------------------
+
+// ruleWalkCurrent: the indexed walker keeps the node it has reached in a loop-carried variable and the plain segments it has not
+// resolved yet in a loop-carried path string. (a) every query made inside the loop is made on the loop-carried node, never on the
+// map the call started with; (b) every new value of the node comes out of a query on the pending path — stepping into a value
+// looked up by the current segment alone ignores the segments that are still pending.
+func ruleWalkCurrent(p *Prog, r *Report, fns []*ssa.Function) {
+	const rule = "WALK.current"
+	n := 0
+	for _, fn := range fns {
+		if len(fn.Blocks) == 0 {
+			continue
+		}
+		hasKeys := false
+		for _, prm := range fn.Params {
+			if sl, ok := prm.Type().Underlying().(*types.Slice); ok {
+				if pt, ok := sl.Elem().Underlying().(*types.Pointer); ok {
+					if _, ok := pt.Elem().Underlying().(*types.Struct); ok {
+						hasKeys = true
+					}
+				}
+			}
+		}
+		if !hasKeys {
+			continue
+		}
+		name := p.Name(fn)
+		// loop-carried node(s) and pending path string(s)
+		var nodePhis, pathPhis []*ssa.Phi
+		eachInstr(fn, func(b *ssa.BasicBlock, in ssa.Instruction) {
+			ph, ok := in.(*ssa.Phi)
+			if !ok {
+				return
+			}
+			isHeader := false
+			for _, pr := range b.Preds {
+				if b.Dominates(pr) {
+					isHeader = true
+				}
+			}
+			if !isHeader {
+				return
+			}
+			if isMapShaped(ph.Type()) {
+				nodePhis = append(nodePhis, ph)
+			}
+			if isStringType(ph.Type()) {
+				pathPhis = append(pathPhis, ph)
+			}
+		})
+		if len(nodePhis) == 0 {
+			continue
+		}
+		n++
+		for _, ph := range nodePhis {
+			body := naturalLoop(ph.Block())
+			// blocks that leave the loop for good (break) belong to an iteration as well: everything behind the body-entry edge
+			for si, sc := range ph.Block().Succs {
+				if !body[sc] || sc == ph.Block() {
+					continue
+				}
+				for _, b := range fn.Blocks {
+					if edgeDominates(ph.Block(), si, b) {
+						body[b] = true
+					}
+				}
+			}
+			// the value the node starts with
+			var start ssa.Value
+			for i, pr := range ph.Block().Preds {
+				if !ph.Block().Dominates(pr) {
+					start = ph.Edges[i]
+				}
+			}
+			// (a)
+			stale := ""
+			eachInstr(fn, func(b *ssa.BasicBlock, in ssa.Instruction) {
+				c, ok := in.(*ssa.Call)
+				if !ok || !body[b] || len(c.Call.Args) == 0 {
+					return
+				}
+				g := staticCallee(&c.Call)
+				if g == nil || !p.InModule(g) {
+					return
+				}
+				for _, a := range c.Call.Args {
+					if isMapShaped(a.Type()) && start != nil && a == start {
+						if _, isPrm := a.(*ssa.Parameter); isPrm {
+							stale = p.Pos(c.Pos())
+						}
+					}
+				}
+			})
+			if stale == "" {
+				r.OK(rule, name, "queries are made on the node reached", p.Pos(ph.Pos()), "no call inside the loop is applied to the map the walk started with")
+			} else {
+				r.Bad(rule, name, "queries are made on the node reached", stale, "inside the loop a query is made on the map the call started with although the walk keeps the node it has reached in a variable of its own: after an indexed step the following segments are resolved in the wrong map")
+			}
+			// (b)
+			if len(pathPhis) == 0 {
+				continue
+			}
+			badStep := ""
+			for i, pr := range ph.Block().Preds {
+				if !ph.Block().Dominates(pr) {
+					continue
+				}
+				var news []ssa.Value
+				var collect func(v ssa.Value, seen map[ssa.Value]bool)
+				collect = func(v ssa.Value, seen map[ssa.Value]bool) {
+					if v == ssa.Value(ph) || seen[v] {
+						return
+					}
+					seen[v] = true
+					if q, ok := v.(*ssa.Phi); ok && body[q.Block()] {
+						for _, e := range q.Edges {
+							collect(e, seen)
+						}
+						return
+					}
+					news = append(news, v)
+				}
+				collect(ph.Edges[i], map[ssa.Value]bool{})
+				for _, nv := range news {
+					fromQuery := false
+					for x := range backwardSliceStop(fn, nv, ph) {
+						c, ok := x.(*ssa.Call)
+						if !ok {
+							continue
+						}
+						g := staticCallee(&c.Call)
+						if g == nil || !p.InModule(g) {
+							continue
+						}
+						for _, a := range c.Call.Args {
+							if !isStringType(a.Type()) {
+								continue
+							}
+							for y := range backwardSlice(fn, a) {
+								for _, pp := range pathPhis {
+									if y == ssa.Value(pp) {
+										fromQuery = true
+									}
+								}
+							}
+						}
+					}
+					if !fromQuery {
+						badStep = p.Pos(nv.Pos())
+					}
+				}
+			}
+			if badStep == "" {
+				r.OK(rule, name, "the node advances through a query on the pending path", p.Pos(ph.Pos()), "every new value of the node derives from a module query that receives the accumulated path")
+			} else {
+				r.Bad(rule, name, "the node advances through a query on the pending path", badStep, "the walk steps into a value that was not obtained by resolving the pending path (plain segments accumulated since the last indexed step): with two or more plain segments before an index the walk continues in a sibling subtree")
+			}
+		}
+	}
+	if n == 0 {
+		r.Unknown(rule, "mxj.valuesForArray", "loop-carried node", "-", "no indexed walker with a loop-carried node found")
+	}
+}
+
+// backwardSliceStop: backward slice that does not look behind the given value (what the node was before this iteration).
+func backwardSliceStop(fn *ssa.Function, seed ssa.Value, stop ssa.Value) map[ssa.Value]bool {
+	seen := map[ssa.Value]bool{}
+	work := []ssa.Value{seed}
+	seen[seed] = true
+	for len(work) > 0 {
+		v := work[len(work)-1]
+		work = work[:len(work)-1]
+		if v == stop {
+			continue
+		}
+		in, ok := v.(ssa.Instruction)
+		if !ok {
+			continue
+		}
+		for _, op := range in.Operands(nil) {
+			if op != nil && *op != nil && !seen[*op] {
+				seen[*op] = true
+				work = append(work, *op)
+			}
+		}
+	}
+	return seen
+}
+
+// ---- PATH.whole (C10) ------------------------------------------------------------------------------------------------------------
+
+// rulePathWhole: UpdateValuesForPath hands the walker the path exactly as split — every segment, in order. A path shortened or
+// otherwise rewritten before the walk addresses other nodes than ValuesForPath does for the same string (the two addressing forms
+// "a.b.key" and "a.b" are not interchangeable below a wildcard or a repeated key name).
+func rulePathWhole(p *Prog, r *Report, api string) {
+	const rule = "PATH.whole"
+	fn := p.Fn(api)
+	if fn == nil {
+		r.Anchor(rule, api)
+		return
+	}
+	var pathP *ssa.Parameter
+	for _, prm := range fn.Params {
+		if isStringType(prm.Type()) {
+			pathP = prm
+		}
+	}
+	n := 0
+	eachInstr(fn, func(b *ssa.BasicBlock, in ssa.Instruction) {
+		c, ok := in.(*ssa.Call)
+		if !ok {
+			return
+		}
+		g := staticCallee(&c.Call)
+		if g == nil || !p.InModule(g) || p.Exported(g) {
+			return
+		}
+		for _, a := range c.Call.Args {
+			if !isStringSlice(a.Type()) {
+				continue
+			}
+			// the sub-key list is a []string as well: only look at slices that come from splitting the path
+			fromPath := false
+			for x := range backwardSlice(fn, a) {
+				if sc, ok := x.(*ssa.Call); ok && isCallTo(&sc.Call, "strings.Split", "strings.SplitN", "strings.Fields") && pathP != nil && derivesFrom(sc.Call.Args[0], pathP) {
+					fromPath = true
+				}
+			}
+			if !fromPath {
+				continue
+			}
+			n++
+			sp, isCall := a.(*ssa.Call)
+			if isCall && isCallTo(&sp.Call, "strings.Split") && derivesFrom(sp.Call.Args[0], pathP) {
+				r.OK(rule, api, "walker receives the whole split path", p.Pos(c.Pos()), "the segment list handed to "+p.Name(g)+" is strings.Split(path, …) itself")
+			} else {
+				r.Bad(rule, api, "walker receives the whole split path", p.Pos(c.Pos()), "the segment list handed to "+p.Name(g)+" is not the split path itself but something derived from it ("+p.canonFor(fn).of(a)+"): the nodes addressed are no longer the ones the path denotes")
+			}
+		}
+	})
+	if n == 0 {
+		r.Unknown(rule, api, "walker receives the whole split path", p.Pos(fn.Pos()), "no call of a walker with the split path found")
+	}
+}
+
+// ---- SEQ.leafkeys (C04) ---------------------------------------------------------------------------------------------------------
+
+// ruleSeqLeafKeys: every scan of an element's keys in the sequence encoder (the child collection, and any helper that decides
+// whether the element has content besides its text) sets the same reserved keys aside. A key the child collection writes
+// (#comment, #directive, #procinst, a child element) but a "has it children?" scan ignores makes the element a leaf, and what is
+// stored under that key is never written.
+func ruleSeqLeafKeys(p *Prog, r *Report) {
+	const rule = "SEQ.leafkeys"
+	enc := p.Fn("mxj.mapToXmlSeqIndent")
+	if enc == nil {
+		r.Anchor(rule, "mxj.mapToXmlSeqIndent")
+		return
+	}
+	type scan struct {
+		fn      *ssa.Function
+		hdr     *ssa.BasicBlock
+		keys    map[string]bool
+		collect bool
+	}
+	var scans []scan
+	fns := []*ssa.Function{enc}
+	eachInstr(enc, func(b *ssa.BasicBlock, in ssa.Instruction) {
+		if c, ok := in.(*ssa.Call); ok {
+			if h := staticCallee(&c.Call); h != nil && h != enc && p.InModule(h) && !p.Exported(h) && len(h.Blocks) > 0 {
+				for _, a := range c.Call.Args {
+					if isMapShaped(a.Type()) {
+						fns = append(fns, h)
+					}
+				}
+			}
+		}
+	})
+	for _, f := range fns {
+		for _, l := range findMapLoops(f) {
+			if l.next == nil || !isMapShaped(l.src.Type()) {
+				continue
+			}
+			var keyEx ssa.Value
+			for _, ref := range *l.next.Referrers() {
+				if ex, ok := ref.(*ssa.Extract); ok && ex.Index == 1 {
+					keyEx = ex
+				}
+			}
+			if keyEx == nil {
+				continue
+			}
+			ks := map[string]bool{}
+			for _, ref := range *keyEx.Referrers() {
+				bo, ok := ref.(*ssa.BinOp)
+				if !ok || (bo.Op != token.EQL && bo.Op != token.NEQ) {
+					continue
+				}
+				other := bo.Y
+				if other == keyEx {
+					other = bo.X
+				}
+				if g := globalOf(other); g != nil {
+					ks[g.Name()] = true
+				}
+			}
+			if len(ks) == 0 {
+				continue
+			}
+			coll := false
+			for b := range l.body {
+				for _, in := range b.Instrs {
+					if c, ok := in.(*ssa.Call); ok && isBuiltin(c, "append") {
+						coll = true
+					}
+				}
+			}
+			// only scans of an element value: they set the sequence key aside
+			if !ks["seqK"] {
+				continue
+			}
+			scans = append(scans, scan{f, l.header, ks, coll})
+		}
+	}
+	var ref *scan
+	for i := range scans {
+		if scans[i].collect && scans[i].fn == enc {
+			ref = &scans[i]
+		}
+	}
+	if ref == nil {
+		r.Unknown(rule, p.Name(enc), "child collection", p.Pos(enc.Pos()), "the loop that collects the children of an element was not found")
+		return
+	}
+	names := func(m map[string]bool) string {
+		var out []string
+		for k := range m {
+			out = append(out, k)
+		}
+		sortStrings(out)
+		return joinStrings(out, ", ")
+	}
+	r.OK(rule, p.Name(enc), "child collection", p.Pos(firstPos(ref.hdr)), "sets aside "+names(ref.keys))
+	for i := range scans {
+		s := &scans[i]
+		if s == ref {
+			continue
+		}
+		same := len(s.keys) == len(ref.keys)
+		for k := range s.keys {
+			if !ref.keys[k] {
+				same = false
+			}
+		}
+		cons := "key scan agrees with the child collection"
+		if same {
+			r.OK(rule, p.Name(s.fn), cons, p.Pos(firstPos(s.hdr)), "sets aside "+names(s.keys))
+		} else {
+			r.Bad(rule, p.Name(s.fn), cons, p.Pos(firstPos(s.hdr)), "this scan of the element's keys sets aside {"+names(s.keys)+"} but the child collection sets aside {"+names(ref.keys)+"}: an entry the collection would write does not count as content here, so an element holding only such entries is written as a leaf and they are lost")
+		}
+	}
 }
